@@ -76,7 +76,12 @@ def six(results):
 def obs_ovr(pairs):
     p = probe()
     out = []
+    # chunks whose first pair has a numeric left operand run on ONE Executor (a blank is then written as None, a cleared cell)
+    ses = p.session() if pairs and pairs[0][0]['k'] in ('num', 'numup') else None
     for a, b in pairs:
+        if ses is not None:
+            out.append(six(ses.eval([(0, 0, 0, py_value(a)), (0, 1, 0, py_value(b))])))
+            continue
         ov = []
         if a['k'] != 'blank':
             ov.append((0, 0, 0, py_value(a)))
